@@ -1,4 +1,5 @@
 import Ledger.Ctrl.Controller
+import Ledger.Ctrl.Spec
 import Ledger.Spec.Accounts
 
 /-!
@@ -44,5 +45,23 @@ def recsOf (d : Db) : List Spec.TxRec := d.txs.map fun t => (absTx t).tx
 /-- `(first_usage, insertion_date)` of an account row, `none` when there is no row. -/
 def datesOfRow (accounts : Map String Account) (a : String) : Option (Int × Int) :=
   (accounts.get? a).map fun r => (r.firstUsage, r.insertionDate)
+
+/-- The Spec store operations on `accounts` a committed log stands for: a new
+    transaction upserts its accounts (`upsertTransactionAccounts`), a revert does not, an
+    account metadata save creates the account when absent; nothing else touches the
+    dates of an account. -/
+def opsOfLog (l : Log) : List Spec.StoreOp :=
+  match l.payload with
+  | .created tx am =>
+    [.commit { postings := tx.postings, timestamp := tx.timestamp, insertedAt := tx.insertedAt,
+               reference := tx.reference, metadata := tx.metadata, accountMetadata := am, upsertAccounts := true }]
+  | .reverted _ rev =>
+    [.commit { postings := rev.postings, timestamp := rev.timestamp, insertedAt := rev.insertedAt,
+               reference := rev.reference, metadata := rev.metadata, upsertAccounts := false }]
+  | .savedMeta (.account a) m => [.saveAccountMeta a l.date m]
+  | _ => []
+
+/-- The Spec store operations of a journal. -/
+def specOpsOf (logs : List Log) : List Spec.StoreOp := logs.flatMap opsOfLog
 
 end Ledger.Ctrl
